@@ -748,6 +748,8 @@ pub fn configs(tier: Tier) -> Vec<(Tcp2Cfg, u32)> {
     // streams longer than the transmit buffer: the tx ring wraps while data is in flight
     let wrap24 = Tcp2Cfg { rx: [64, 64], tx: [24, 64], len: [100, 0], ..b("txwrap24") };
     let wrap40 = Tcp2Cfg { rx: [64, 256], tx: [40, 16], len: [110, 50], mtu: 100, nagle: false, ..b("txwrap40-bidir") };
+    let eth4 = Tcp2Cfg { eth: true, len: [60, 20], ..b("eth-arp") };
+    let eth6s = Tcp2Cfg { eth: true, v6: true, mtu: 1280, slaac: true, len: [100, 20], rx: [64, 32], ..b("eth-v6-slaac") };
     let tiny = Tcp2Cfg { rx: [8, 8], tx: [16, 16], len: [20, 9], mtu: 80, ..b("rx8-bidir") };
     // sweep of stream lengths against a 24-byte transmit ring and a 10-byte peer window: for
     // some lengths the final unsent chunk straddles the end of the ring storage at close()
@@ -758,7 +760,9 @@ pub fn configs(tier: Tier) -> Vec<(Tcp2Cfg, u32)> {
     }
     match tier {
         Tier::Quick => {
-            v.push((small, 3));
+            v.push((eth4, 2));
+            v.push((eth6s, 2));
+            v.push((small, 4));
             v.push((dflt, 3));
             v.push((wrap, 3));
             v.push((big, 2));
@@ -775,6 +779,8 @@ pub fn configs(tier: Tier) -> Vec<(Tcp2Cfg, u32)> {
             v.push((wrap40, 2));
         }
         Tier::Thorough => {
+            v.push((eth4, 3));
+            v.push((eth6s, 3));
             v.push((small, 5));
             v.push((dflt, 4));
             v.push((wrap, 4));
